@@ -301,7 +301,20 @@ class Ctx:
             shutil.rmtree(self.work, ignore_errors=True)
 
 
+def trim_go_cache():
+    """Every build from a scratch copy of the repository leaves its own entries in the Go build cache (measured:
+    118 GB after ten hours of sweeps).  When less than 20 GB of disk are free the cache is emptied (the next builds
+    take ~1 min longer)."""
+    try:
+        st = os.statvfs(os.path.expanduser("~"))
+        if st.f_bavail * st.f_frsize < 20 * 2 ** 30:
+            subprocess.run(["go", "clean", "-cache"], env=GOENV, timeout=600)
+    except Exception:
+        pass
+
+
 def build_executor(ctx, tags="verif", name="arkexec"):
+    trim_go_cache()
     out = os.path.join(ctx.work, name)
     # the typed wrappers are generated code; regenerate if missing
     gen = os.path.join(HARNESS, "arkx", "typed_gen.go")
